@@ -231,7 +231,7 @@ func GenOp(t *rapid.T, r *Runner, pool *KeyPool, p *GenProfile) Op {
 		return Op{K: "tear", N: 8 + U(t, 400, "tearlen"), VSeed: r.NextSeed()}
 	case "backup":
 		o := GenOpt(t, "backupreader", p.OptProfile)
-		return Op{K: "backup", Opt: &o}
+		return Op{K: "backup", Opt: &o, Reuse: Pct(t, 35, "reusebackupdir")}
 	case "bigput":
 		key := pool.Draw(t, "key")
 		return Op{K: "put", Key: key, VLen: BlockSize + U(t, 2*BlockSize, "biglen"), VSeed: r.NextSeed()}
